@@ -230,6 +230,7 @@ for _p in ("C17", "C06"):
     PROPS[_p]["tasks"] = PROPS[_p]["tasks"] + ["IndexMarket.get_fundamental_index"]
 PROPS["C18"]["tasks"] = PROPS["C18"]["tasks"] + ["SequentialRunner._setup"]
 PROPS["C12"]["tasks"] = PROPS["C12"]["tasks"] + ["SequentialRunner._set_fundamental_correlation[pair]"]
+PROPS["C09"]["tasks"] = PROPS["C09"]["tasks"] + ["Simulator._add_agent"]      # who is consulted in which phase is decided at registration
 from .census import CALLERS as _CALLERS
 for _g, (_ps, _r, _t) in _CALLERS.items():
     for _p in _ps:
